@@ -173,7 +173,7 @@ int main(int argc, char **argv) {
     std::vector<int> root; if (strcmp(argv[8], "-") != 0) parse_list_i(argv[8], root);
     unsigned long long maxruns = strtoull(argv[9], NULL, 10);
     bool replay = argc > 10;
-    const double y0 = 0.25;
+    const double y0 = 0.25 * dt;   /* same magnitude as the interval, so that y - y0 measures the integrated time exactly for tiny and huge dt alike */
     memset(&S, 0, sizeof(S));
     g_prefix = root;
     unsigned long long nviol = 0; bool capped = false;
